@@ -226,7 +226,11 @@ type solveResult struct {
 }
 
 func runSolver(sp solverSpec, file string, secs int) solveResult {
-	ctx, cancel := context.WithTimeout(context.Background(), time.Duration(secs+2)*time.Second)
+	return runSolverCtx(context.Background(), sp, file, secs)
+}
+
+func runSolverCtx(parent context.Context, sp solverSpec, file string, secs int) solveResult {
+	ctx, cancel := context.WithTimeout(parent, time.Duration(secs+2)*time.Second)
 	defer cancel()
 	argv := sp.argv(file, secs)
 	cmd := exec.CommandContext(ctx, argv[0], argv[1:]...)
@@ -263,8 +267,12 @@ func raceSolvers(file string, secs int, all bool) (solveResult, []solveResult) {
 		}
 	}
 	ch := make(chan solveResult, len(solvers))
+	// the losers of the race are stopped as soon as one back end has answered: left running
+	// they would slow down every query that follows
+	raceCtx, stopRace := context.WithCancel(context.Background())
+	defer stopRace()
 	for _, sp := range solvers {
-		go func(sp solverSpec) { ch <- runSolver(sp, file, secs) }(sp)
+		go func(sp solverSpec) { ch <- runSolverCtx(raceCtx, sp, file, secs) }(sp)
 	}
 	var best *solveResult
 	for range solvers {
@@ -431,6 +439,21 @@ func prepareObligation(c *VCtx, o *Obligation, mode Mode, opt solveOpts) {
 			}
 		}
 	}
+	if o.NQ > 0 {
+		// stage F: hypotheses instantiated only on reads of the object their pattern names
+		if asF := c.assertsFor(o, false, true); len(asF)*10 < len(as)*8 {
+			for _, abs := range []bool{true, false} {
+				AbstractBits = abs && mode == ModeInt
+				if textF, errF := Query(mode, asF, nil); errF == nil && len(textF) < 40<<20 && (!abs || QueryUsedAbstraction) {
+					fileCounter++
+					fn := filepath.Join(opt.workdir, fmt.Sprintf("q%05d_focus.smt2", fileCounter))
+					os.WriteFile(fn, []byte(textF), 0o644)
+					o.FocusFiles = append(o.FocusFiles, fn)
+				}
+			}
+			AbstractBits = false
+		}
+	}
 	// stage S: only the hypotheses that share uncommon symbols with the goal (two hops). Fewer
 	// hypotheses can only make the query weaker, so an unsat answer stands.
 	if len(as) > 150 {
@@ -447,21 +470,6 @@ func prepareObligation(c *VCtx, o *Obligation, mode Mode, opt solveOpts) {
 					fileCounter++
 					fn := filepath.Join(opt.workdir, fmt.Sprintf("q%05d_slice.smt2", fileCounter))
 					os.WriteFile(fn, []byte(textS), 0o644)
-					o.FocusFiles = append(o.FocusFiles, fn)
-				}
-			}
-			AbstractBits = false
-		}
-	}
-	if o.NQ > 0 {
-		// stage F: hypotheses instantiated only on reads of the object their pattern names
-		if asF := c.assertsFor(o, false, true); len(asF)*10 < len(as)*8 {
-			for _, abs := range []bool{true, false} {
-				AbstractBits = abs && mode == ModeInt
-				if textF, errF := Query(mode, asF, nil); errF == nil && len(textF) < 40<<20 && (!abs || QueryUsedAbstraction) {
-					fileCounter++
-					fn := filepath.Join(opt.workdir, fmt.Sprintf("q%05d_focus.smt2", fileCounter))
-					os.WriteFile(fn, []byte(textF), 0o644)
 					o.FocusFiles = append(o.FocusFiles, fn)
 				}
 			}
